@@ -6,24 +6,8 @@ From Verif Require Import Word Conc Gen_consts Gen_fields Gen_rootq RootQ RootQ_
 Import ListNotations.
 Local Open Scope Z_scope.
 
-(* program points that carry the duty to look at the queue or to wake somebody who will:
-   - a pusher whose store to dq_items_head is in flight, then its poke up to the semaphore signal,
-   - any poke up to the semaphore signal, a pthread_create in flight,
-   - a worker that has started / is inside _dispatch_root_queue_drain_one before it decided to sleep (including the
-     contended wait and the holder of the mediator, which re-pokes when it leaves an item behind),
-   - a worker that timed out and is about to give its slot back (it pokes afterwards). *)
-Definition tok (p : pc) : bool :=
-  match p with
-  | PPushLink _ _ prev => prev =? 0
-  | PPokeProbe _ _ _ | PSigInc _ _ _ | PCreate _ _ | PWStart | PDrainXchg | PDrainCasNull | PDrainTail
-  | PCwEval _ _ | PCwEvalT _ _ | PDrainNext _ | PDrainStoreNull _ | PDrainCasTail _ | PDrainWaitNext _ _
-  | PDrainStoreHead _ _ | PExitInc => true
-  | PCwOut st => st =? ST_READY
-  | _ => false
-  end.
-(* signals held by the pool semaphore: banked in dsema_value, being posted, or posted to the kernel semaphore *)
-Definition surplus (s : gst) : Z := Z.max 0 (sval s) + cnt is_sigpost s + ksem s.
-
+(* tok (program points that carry the duty to look or to wake) and surplus (signals held by the pool semaphore) are defined in
+   Model/RootQ.v *)
 Definition Inv4 (s : gst) : Prop := unclaimed s <> [] -> (exists t, tok (pcs s t) = true) \/ 1 <= surplus s.
 
 Lemma Inv4_init p0 : Inv4 (init_state p0).
